@@ -55,6 +55,7 @@ func (f PicklerFunc) Pickle(x starlark.Value) (module, name string, args starlar
 type Encoder struct {
 	w       writer
 	memo    map[starlark.Value]int
+	nextID  int
 	pickler Pickler
 }
 
@@ -78,7 +79,10 @@ func (e *Encoder) memoized(x starlark.Value) (int, bool) {
 
 func (e *Encoder) memoize(x starlark.Value) {
 	if reflect.TypeOf(x).Comparable() {
-		id := len(e.memo)
+		// IDs are positions in the decoder's memo, which grows with every MEMOIZE, including one for a value
+		// that has been memoized before (e.g. a placeholder for a value whose pickling is in progress).
+		id := e.nextID
+		e.nextID++
 		e.memo[x] = id
 
 		e.w.WriteByte(opMEMOIZE)
